@@ -720,6 +720,56 @@ func casterC08(c *Ctx) {
 			okp := fs >= 0 && !P.PathExists(q.fn, rif, an.IsReturn, nil, cutEdge(rif, 1-fs))
 			q.add("PATH", "a failed reset (unregistered receiver) panics", okp, pickS(okp, "the failed-CAS side reaches only panic", "Send can return normally although the state could not be reset: an invariant violation would go unnoticed"), reset)
 		}
+		// exact conditions: arming iff state != 0, lo == hi, hi <= Max; final return iff hi' <= hi, lo' == hi' + Max, reset CAS ok
+		{
+			const max = 2147483647
+			loads := P.CallsTo(q.fn, "(*sync/atomic.Uint64).Load")
+			var pre, post *ssa.Call
+			for _, l := range loads {
+				lc := l.(*ssa.Call)
+				if P.InCycle(lc) && P.Before(q.fn, an.Is(lc), arm) {
+					pre = lc
+				}
+				if P.Before(q.fn, an.Is(arm), lc) && !P.InCycle(lc) {
+					post = lc
+				}
+			}
+			if pre == nil || post == nil {
+				q.undecided("COND", "exact validation conditions of Send", "the state loads before arming / after the send loop were not found")
+			} else {
+				h1, l1 := hiLoOf(q.fn, pre)
+				h2, l2 := hiLoOf(q.fn, post)
+				if h1 == nil || l1 == nil || h2 == nil || l2 == nil {
+					q.undecided("COND", "exact validation conditions of Send", "hi/lo words are not extracted as uint32(state>>32) / uint32(state)")
+				} else {
+					S := P.Lin(pre)
+					H1, L1, H2, L2 := P.Lin(h1), P.Lin(l1), P.Lin(h2), P.Lin(l2)
+					wantArm := an.DNF{conj(lit(S, an.SNeg|an.SPos), lit(L1.Minus(H1), an.SZero), lit(H1.AddC(-max), an.SNeg|an.SZero))}
+					got := P.PathCond(q.fn, pre.Block(), arm, keepForms(S, L1.Minus(H1), H1.AddC(-max)))
+					ok, cex := an.EquivDNF(got, wantArm)
+					q.add("COND", "the state is armed iff it is non-zero and consistent (lo == hi <= Max)", ok, pickS(ok, "arming CAS reached iff state != 0, lo == hi, hi <= MaxInt32", "arming is attempted iff ["+got.String()+"]; differs for "+cex), arm)
+					for _, r := range returnsOf(q.fn) {
+						vs := c.retVals(r, 0)
+						if len(vs) == 1 && isZero(vs[0]) && P.InCycle(r) == false && P.PathExists(q.fn, pre, an.Is(r), nil, nil) && !P.PathExists(q.fn, arm, an.Is(r), nil, cutEdge(ifOf(P, q.fn, arm.(*ssa.Call)), 1)) {
+							g := P.PathCond(q.fn, pre.Block(), r, keepForms(S))
+							okz, _ := an.EquivDNF(g, an.DNF{conj(lit(S, an.SZero))})
+							q.add("COND", "Send returns 0 under the lock iff the state is 0", okz, "zero return reached iff state == 0", r)
+						}
+					}
+					cr := P.Lin(reset.(*ssa.Call))
+					wantRet := an.DNF{conj(lit(H2.Minus(H1), an.SNeg|an.SZero), lit(L2.Minus(H2.AddC(max)), an.SZero), lit(cr, an.SPos))}
+					for _, r := range returnsOf(q.fn) {
+						if !P.PathExists(q.fn, post, an.Is(r), nil, nil) {
+							continue
+						}
+						g := P.PathCond(q.fn, post.Block(), r, keepForms(H2.Minus(H1), L2.Minus(H2.AddC(max)), cr))
+						okr, cex := an.EquivDNF(g, wantRet)
+						q.add("COND", "after sending, Send returns iff receivers did not grow, lo == hi + Max, and the reset CAS succeeded", okr,
+							pickS(okr, "return reached iff that condition (everything else panics)", "the post-send validation changed: Send returns iff ["+g.String()+"]; differs for "+cex), r)
+					}
+				}
+			}
+		}
 		// the two validation comparisons exist
 		nv := 0
 		for _, b := range q.fn.Blocks {
